@@ -56,6 +56,12 @@ func (c *Compiler) getVariables(t *ast.Task, call *Call, evaluateShVars bool) (*
 
 	getRangeFunc := func(dir string) func(k string, v ast.Var) error {
 		return func(k string, v ast.Var) error {
+			// A live value is final (e.g. the arguments forwarded from the command
+			// line): it is passed on as it is and never treated as a template
+			if v.Live != nil {
+				result.Set(k, ast.Var{Value: v.Live})
+				return nil
+			}
 			cache := &templater.Cache{Vars: result}
 			// Replace values
 			newVar := templater.ReplaceVar(v, cache)
